@@ -100,7 +100,7 @@ func runUnderRaceDetector(seed uint64, n int, tmp string, st *Stats) {
 func runC20(seed uint64, n int, tier string, outDir string) []*Stats {
 	r := NewRng(seed)
 	st := NewStats("c20", seed)
-	cf := NewCoqFile("From V Require Import Common.Base C20.Protocol C20.Harness.")
+	cf := NewCoqFile("From V Require Import Common.Base C20.Protocol C20.ServiceSpec C20.Harness.")
 	tmp := mustTemp()
 	defer os.RemoveAll(tmp)
 
@@ -126,6 +126,7 @@ func runC20(seed uint64, n int, tier string, outDir string) []*Stats {
 		}
 		cf.AddCases("pkt_out_cases", "bytes * Z * bool * value", "check_pkt", env.pktOut)
 		cf.AddCases("pkt_in_cases", "bytes * Z * bool * value", "check_pkt", env.pktIn)
+		cf.AddCases("svc_cases", "list sev", "check_svc", env.svcTr)
 	}
 
 	// ---- contexts and plugins on the real pkg/api
